@@ -54,6 +54,8 @@ type Decoder struct {
 	literal   bool
 	crlf      bool
 	listDepth int
+
+	nonSyncLiteral bool // whether the last literal was non-synchronizing
 }
 
 // NewDecoder creates a new decoder.
@@ -562,8 +564,9 @@ func (dec *Decoder) Literal(ptr *string) bool {
 	}
 	if dec.CheckBufferedLiteralFunc != nil {
 		if err := dec.CheckBufferedLiteralFunc(lit.Size(), nonSync); err != nil {
-			lit.cancel()
-			return false
+			// Leave the literal open: its payload (if any is sent) must not
+			// be decoded as regular data
+			return dec.returnErr(err)
 		}
 	}
 	var sb strings.Builder
@@ -589,12 +592,21 @@ func (dec *Decoder) LiteralReader() (lit *LiteralReader, nonSync, ok bool) {
 		return nil, false, false
 	}
 	dec.literal = true
+	dec.nonSyncLiteral = nonSync
 	lit = &LiteralReader{
 		dec:  dec,
 		size: size,
 		r:    io.LimitReader(dec.r, size),
 	}
 	return lit, nonSync, true
+}
+
+// UnreadNonSyncLiteral returns true if a non-synchronizing literal has been
+// announced by the peer but its payload hasn't been fully read. The payload
+// is sent without waiting for a continuation request, so what follows in the
+// stream cannot be decoded as regular data.
+func (dec *Decoder) UnreadNonSyncLiteral() bool {
+	return dec.literal && dec.nonSyncLiteral
 }
 
 func (dec *Decoder) ExpectLiteralReader() (lit *LiteralReader, nonSync bool, err error) {
